@@ -267,6 +267,24 @@ func runC15(args []string) int {
 				if arch == 0 && len(r.Samples) < 3 {
 					r.sample(map[string]interface{}{"mesgnum": mn, "field": f.Num, "struct_field": sf.Name, "stream_hex": hexs(rs.Data), "decoded": impl.observable()})
 				}
+				// a SECOND data record under the same definition that carries the field's invalid / empty wire
+				// value: the decoder skips the store for those, so the message must have started from the
+				// constructor's all-invalid value again (not from the previous record's message)
+				if pb == types.BaseString || f.T.Kind() == types.TimeUTC || f.T.Kind() == types.TimeLocal {
+					inv := make([]byte, len(pay))
+					if pb != types.BaseString {
+						for i := range inv {
+							inv[i] = 0xFF
+						}
+					}
+					s2 := &stream{HdrSize: 14, Proto: 0x10, Profile: 2115, HdrCRC: "ok"}
+					s2.Records = append(append([]record{}, s.Records...), record{Kind: "M", Local: 1, Pay: inv})
+					s2.fillHex()
+					if _, _, _, ok := decodeAndJudge(r, w, streamCase{s2, readerSpec{Data: s2.bytes()}}, optSet{}, "second_record_", true); !ok {
+						return 2
+					}
+					r.hist("second_record_with_invalid_value")
+				}
 			}
 			r.hist(fmt.Sprintf("kind%d_array%v", f.T.Kind(), f.T.Array()))
 		}
